@@ -582,5 +582,152 @@ def c18_mesh_independence(rng, tier):
     return out
 
 
+# ---------------------------------------------------------------------------------------
+# C13
+# ---------------------------------------------------------------------------------------
+def _run_geometry(surface, setvals=None):
+    from openaerostruct.geometry.geometry_group import Geometry
+    import openmdao.api as om
+    prob = om.Problem(reports=False)
+    prob.model.add_subsystem("geom", Geometry(surface=surface), promotes=["*"])
+    with quiet():
+        prob.setup()
+        for k, v in (setvals or {}).items():
+            prob.set_val(k, v)
+        prob.run_model()
+    return np.array(prob.get_val("mesh"))
+
+
+def _clean_mesh(rng, nx, ny, sym, kind):
+    """input meshes whose chordwise rows share y (as all OAS generators produce): flat, pre-twisted, cambered, dihedral"""
+    from openaerostruct.geometry.utils import generate_mesh
+    span = float(rng.uniform(4, 14)); chord = float(rng.uniform(0.6, 2.5))
+    num_y = 2 * ny - 1 if sym else (ny if ny % 2 else ny + 1)
+    mesh = np.array(generate_mesh(dict(num_x=nx, num_y=num_y, wing_type="rect", symmetry=sym, span=span, root_chord=chord,
+                                       span_cos_spacing=float(rng.uniform(0, 1)), chord_cos_spacing=float(rng.uniform(0, 1)))), dtype=float)
+    y = mesh[0, :, 1]; eta = np.abs(y) / (span / 2)
+    xi = (mesh[:, 0, 0] - mesh[0, 0, 0]) / chord
+    if kind in ("pretwisted", "cambered+dihedral"):
+        mesh[:, :, 2] -= (mesh[:, :, 0] - mesh[0, :, 0]) * np.tan(np.radians(3.0) * eta)[None, :]
+    if kind in ("cambered", "cambered+dihedral"):
+        mesh[:, :, 2] += (0.04 * chord * 4 * xi * (1 - xi))[:, None]
+    if kind in ("dihedral", "cambered+dihedral"):
+        mesh[:, :, 2] += np.tan(np.radians(6.0)) * np.abs(y)[None, :]
+    return mesh, span, chord
+
+
+@oracle("C13", "defaults_are_noop")
+def c13_defaults(rng, tier):
+    nx, ny = _pick_size(rng, tier)
+    sym = bool(rng.integers(2))
+    kind = str(rng.choice(["flat", "pretwisted", "cambered", "dihedral", "cambered+dihedral"]))
+    mesh, span, chord = _clean_mesh(rng, nx, ny, sym, kind)
+    ncp = int(rng.integers(2, 5))
+    s = dict(name="wing", symmetry=sym, mesh=mesh.copy(), S_ref_type="wetted", fem_model_type="tube")
+    if rng.uniform() < 0.5:
+        s["ref_axis_pos"] = float(rng.uniform(0, 1))
+    # a random subset of design variables is declared, all at their default values
+    decl = [k for k in ("taper", "chord_cp", "sweep", "xshear_cp", "yshear_cp", "dihedral", "zshear_cp", "twist_cp") if rng.uniform() < 0.6]
+    for k in decl:
+        s[k] = {"taper": 1.0, "sweep": 0.0, "dihedral": 0.0}.get(k, np.ones(ncp) if k == "chord_cp" else np.zeros(ncp))
+    out = []
+    got = _run_geometry(s)
+    err = np.max(np.abs(got - mesh))
+    if err > 1e-12 * max(span, chord):
+        f = _fail("default design variables change the mesh", err, 0.0, nx=nx, ny=mesh.shape[1], symmetry=sym, mesh=kind, declared=decl)
+        # known finding F8a: Rotate pre-rotates every section about x by the local dihedral angle of the
+        # reference axis even at zero twist.  The failure is attributed to F8a only if the output is
+        # *exactly* that pre-rotation of the input (anything else stays an unexplained violation).
+        pos = s.get("ref_axis_pos", 0.25)
+        ref = pos * mesh[-1] + (1 - pos) * mesh[0]
+        nyy = mesh.shape[1]
+        thx = np.zeros(nyy)
+        if sym:
+            thx[:-1] = np.arctan((ref[:-1, 2] - ref[1:, 2]) / (ref[:-1, 1] - ref[1:, 1]))
+        else:
+            r = (nyy - 1) // 2
+            thx[:r] = np.arctan((ref[:r, 2] - ref[1:r + 1, 2]) / (ref[:r, 1] - ref[1:r + 1, 1]))
+            thx[r + 1:] = np.arctan((ref[r + 1:, 2] - ref[r:-1, 2]) / (ref[r + 1:, 1] - ref[r:-1, 1]))
+        d = mesh - ref
+        exp8 = mesh.copy()
+        exp8[:, :, 1] = ref[:, 1] + np.cos(thx) * d[:, :, 1] - np.sin(thx) * d[:, :, 2]
+        exp8[:, :, 2] = ref[:, 2] + np.sin(thx) * d[:, :, 1] + np.cos(thx) * d[:, :, 2]
+        if np.max(np.abs(got - exp8)) <= 1e-12 * max(span, chord):
+            f["finding"] = "F8a"
+        out.append(f)
+    if not np.array_equal(s["mesh"], mesh):
+        out.append(_fail("Geometry modified the user's mesh array", "changed", "unchanged", nx=nx, symmetry=sym))
+    return out
+
+
+@oracle("C13", "documented_effects")
+def c13_effects(rng, tier):
+    nx, ny = _pick_size(rng, tier)
+    sym = bool(rng.integers(2))
+    mesh, span, chord = _clean_mesh(rng, nx, ny, sym, "flat")
+    ny = mesh.shape[1]
+    pos = float(rng.uniform(0, 1))
+    base = dict(name="wing", symmetry=sym, mesh=mesh, ref_axis_pos=pos)
+    ref = pos * mesh[-1] + (1 - pos) * mesh[0]
+    root = ny - 1 if sym else (ny - 1) // 2
+    dist = np.abs(mesh[0, :, 1] - mesh[0, root, 1])
+    out = []
+    case = dict(nx=nx, ny=ny, symmetry=sym, ref_axis_pos=pos)
+    # sweep: positive = aft, x shift |y - y_root| tan, y and z kept, planform area kept
+    ang = float(rng.uniform(5, 35))
+    m = _run_geometry(dict(base, sweep=ang))
+    req = mesh.copy(); req[:, :, 0] += dist * np.tan(np.radians(ang))
+    if relerr(m, req) > 1e-12:
+        out.append(_fail("sweep does not displace x by |y-y_root| tan(sweep) keeping y, z", m - mesh, req - mesh, sweep=ang, **case))
+    def area(mm):
+        d1 = mm[:-1, 1:] - mm[1:, :-1]; d2 = mm[:-1, :-1] - mm[1:, 1:]
+        return 0.5 * np.abs(d1[:, :, 0] * d2[:, :, 1] - d1[:, :, 1] * d2[:, :, 0]).sum()
+    if abs(area(m) - area(mesh)) > 1e-12 * area(mesh):
+        out.append(_fail("sweep changes the planform area", area(m), area(mesh), sweep=ang, **case))
+    # dihedral
+    ang = float(rng.uniform(2, 15))
+    m = _run_geometry(dict(base, dihedral=ang))
+    req = mesh.copy(); req[:, :, 2] += dist * np.tan(np.radians(ang))
+    if relerr(m, req) > 1e-12:
+        out.append(_fail("dihedral does not displace z by |y-y_root| tan(dihedral)", m - mesh, req - mesh, dihedral=ang, **case))
+    # taper: chords scale linearly from 1 at the root to t at the tip, about the reference axis
+    t = float(rng.uniform(0.3, 0.9))
+    m = _run_geometry(dict(base, taper=t))
+    half = span / 2
+    fac = 1 - (1 - t) * dist / np.max(dist)
+    c0 = mesh[-1, :, 0] - mesh[0, :, 0]; c1 = m[-1, :, 0] - m[0, :, 0]
+    if relerr(c1, c0 * fac) > 1e-12:
+        out.append(_fail("taper does not scale chords linearly from 1 (root) to taper (tip)", c1 / c0, fac, taper=t, **case))
+    ref1 = pos * m[-1] + (1 - pos) * m[0]
+    if relerr(ref1, ref) > 1e-12:
+        out.append(_fail("taper moves the reference axis", ref1, ref, taper=t, **case))
+    # span: tip-to-tip extent
+    sp = float(span * rng.uniform(0.7, 1.5))
+    m = _run_geometry(dict(base, span=sp))
+    ref1 = pos * m[-1] + (1 - pos) * m[0]
+    ext = (ref1[-1, 1] - ref1[0, 1]) * (2 if sym else 1)
+    if abs(ext - sp) > 1e-12 * sp:
+        out.append(_fail("span does not set the tip-to-tip extent", ext, sp, **case))
+    # chord scaling and twist act about the reference axis; twist preserves chord length
+    ncp = int(rng.integers(2, 5))
+    ccp = rng.uniform(0.6, 1.4, size=ncp); tcp = rng.uniform(-8, 8, size=ncp)
+    m = _run_geometry(dict(base, chord_cp=ccp, twist_cp=tcp))
+    ref1 = pos * m[-1] + (1 - pos) * m[0]
+    if relerr(ref1, ref) > 1e-12:
+        out.append(_fail("chord scaling / twist move the reference axis", ref1, ref, **case))
+    m2 = _run_geometry(dict(base, chord_cp=ccp))
+    l1 = np.linalg.norm(m[-1] - m[0], axis=1); l2 = np.linalg.norm(m2[-1] - m2[0], axis=1)
+    if relerr(l1, l2) > 1e-12:
+        out.append(_fail("twist changes the chord length", l1, l2, **case))
+    # shears translate sections; equal control points give a constant distribution
+    v = float(rng.normal())
+    for key, ax in (("xshear_cp", 0), ("yshear_cp", 1), ("zshear_cp", 2)):
+        m = _run_geometry(dict(base, **{key: np.full(ncp, v)}))
+        req = mesh.copy(); req[:, :, ax] += v
+        if relerr(m, req) > 1e-12:
+            out.append(_fail("equal %s control points do not translate every section by the same amount" % key, m - mesh, req - mesh, ncp=ncp, **case))
+    return out
+
+
 class Discard(Exception):
     """raised by an oracle when the generated case is outside the property's quantifier"""
